@@ -90,7 +90,10 @@ fn main() {
                 "shared" => conc_exec::shared(seed, arg(&args, "--threads").unwrap_or("16").parse().unwrap(),
                                               arg(&args, "--calls").unwrap_or("50").parse().unwrap(), &mut out),
                 #[cfg(feature = "pmtree")]
-                "reopen" => conc_exec::reopen(arg(&args, "--dir").expect("--dir"), arg(&args, "--n").unwrap_or("20").parse().unwrap(), &mut out),
+                "reopen" => {
+                    conc_exec::reopen(arg(&args, "--dir").expect("--dir"), arg(&args, "--n").unwrap_or("20").parse().unwrap(), &mut out);
+                    conc_exec::regeometry(arg(&args, "--dir").expect("--dir"), &mut out);
+                }
                 m => panic!("unknown mode {m}"),
             }
             write_ndjson(arg(&args, "--out").expect("--out"), &out);
